@@ -237,6 +237,18 @@ def run_history(res, d, ops, tag, queries=None):
             ctx.append(["reopen"])
             res.count("reopens")
             kinds.add("reopen")
+        elif op[0] == "redate":
+            # the rows so far were written on earlier days (an independent connection back-dates them): the same trace added again
+            # today is still ONE distinct row
+            conn = sqlite3.connect(path)
+            ids = [r[0] for r in conn.execute("SELECT rowid FROM monkeytype_call_traces")]
+            with conn:
+                for j, rid in enumerate(ids):
+                    conn.execute("UPDATE monkeytype_call_traces SET created_at = ? WHERE rowid = ?", (f"2024-0{1 + (j + len(ctx)) % 9}-1{j % 10} 10:00:00.000", rid))
+            conn.close()
+            ctx.append(["redate"])
+            res.count("histories_with_rows_from_earlier_days")
+            kinds.add("redate")
         elif op[0] == "second":
             second = SQLiteStore.make_store(path)
             ctx.append(["second-connection"])
@@ -273,8 +285,14 @@ def work_histories(p):
     d = core.scratch("c09h")
     rng = random.Random(p["seed"])
     for i, seq in enumerate(p.get("sequences", ())):
-        for variant in range(3):
+        for variant in range(4):
             ops = []
+            if variant == 3:
+                # every batch twice with a change of day in between
+                for b in seq:
+                    ops += [("add", BATCHES[b], False, False), ("redate",), ("add", BATCHES[b], False, i % 2 == 1)]
+                run_history(res, d, ops, f"{p['seed']}_{i}_{variant}", ALL_QUERIES[::5])
+                continue
             for j, b in enumerate(seq):
                 if variant == 2 and j == 0:
                     ops.append(("second",))
@@ -288,8 +306,10 @@ def work_histories(p):
             r = rng.random()
             if r < 0.7:
                 ops.append(("add", gen_batch(rng), rng.random() < 0.5, rng.random() < 0.35))
-            elif r < 0.85:
+            elif r < 0.82:
                 ops.append(("reopen",))
+            elif r < 0.9:
+                ops.append(("redate",))
             else:
                 ops.append(("second",))
         # query subset after each op to keep the cost bounded
@@ -864,6 +884,7 @@ def run(ck):
     ck.need("batches_with_unserialisable", 50)
     ck.need("reopens", 50)
     ck.need("adds_through_the_store_logger", 50)
+    ck.need("histories_with_rows_from_earlier_days", 50)
     ck.need("bulk_histories", 8)
     ck.need("commit_orders", 3, "fewer than 3 distinct commit orders seen")
     ck.need("reader_reads", 20)
@@ -908,6 +929,8 @@ def replay(ck, path):
                 ops.append(("reopen",))
             elif h[0] == "second-connection":
                 ops.append(("second",))
+            elif h[0] == "redate":
+                ops.append(("redate",))
         run_history(res, d, ops, "replay")
     ck.merge(res.out())
     return ck.finish(level="fault_enumeration", rule="replay of " + path)
